@@ -370,6 +370,15 @@ func scopeVerdict(tbl *Table, sc scenario) (int, []string) {
 		a := tbl.Rows[bp.I]
 		for _, p := range sc.Scope {
 			// the contents of the messages a resource publishes are in scope wherever the resource is
+			// …and the package-level variables of a package wherever one of its types is
+			if g := strings.TrimPrefix(a.Field, "global:"); g != a.Field {
+				if i := strings.Index(g, "."); i >= 0 && strings.HasPrefix(p, g[:i+1]) {
+					n++
+					sigs = append(sigs, locksetSig(a, tbl.Rows[bp.J]))
+					break
+				}
+				continue
+			}
 			if strings.HasPrefix(a.Field, p) || strings.HasPrefix(strings.TrimPrefix(a.Field, "published:"), p) {
 				n++
 				sigs = append(sigs, locksetSig(a, tbl.Rows[bp.J]))
